@@ -390,6 +390,28 @@ var corruptions = []corruption{
 		setEvidence(b, evs)
 		return done
 	}},
+	{"evidence/fault-record-nil-key", 2, func(r *rng.R, b *types.Block, e *env) bool {
+		// the record names the previous proposer (and, after a late-round commit, the validator that failed to
+		// propose) by public key; a nil key survives the wire encoding and must simply make the record invalid
+		var evs types.EvidenceList
+		done := false
+		for _, ev := range b.Evidence.Evidence {
+			if f, ok := ev.(*types.FaultValidatorsEvidence); ok && !done {
+				c := *f
+				if f.Round > 0 && f.FaultVal != nil && r.Bool() {
+					c.FaultVal = nil
+				} else {
+					c.Proposer = nil
+				}
+				evs = append(evs, &c)
+				done = true
+			} else {
+				evs = append(evs, ev)
+			}
+		}
+		setEvidence(b, evs)
+		return done
+	}},
 	{"evidence/fault-record-wrong-round", 2, func(r *rng.R, b *types.Block, e *env) bool {
 		var evs types.EvidenceList
 		done := false
